@@ -58,13 +58,16 @@ def reset_capacity():
     StreamItemQueue.__init__.__defaults__ = _DEFAULTS
 
 
-def run_incremental(scn, sched_tape, stop_factory=None, step_cap=None, lenient=False):
+def run_incremental(scn, sched_tape, stop_factory=None, step_cap=None, lenient=False,
+                    force_early=None):
     """Run every request of the scenario concurrently on one SimLoop.
 
     stop_factory(sim, tape, i, rs, req, rr) -> Stop object or None (C06).
     """
     sim = Sim(sched_tape, step_cap)
     knobs = Knobs(sched_tape)
+    if force_early is not None:
+        knobs.early = force_early
     al = alloc.SimAllocator(knobs.alloc, sched_tape)
     reqs = [Request(sim, i, scn.world, rs.planner, root=rs.root)
             for i, rs in enumerate(scn.requests)]
